@@ -234,3 +234,41 @@ TYPE_CODE_CLASSES = {
     0x0012: 'TimeType', 0x0013: 'ShortType', 0x0014: 'ByteType', 0x0015: 'DurationType',
     0x0020: 'ListType', 0x0021: 'MapType', 0x0022: 'SetType', 0x0030: 'UserType', 0x0031: 'TupleType',
 }
+
+# ---------------------------------------------------------------- CQL value encodings (spec section 6, Cassandra *Serializer classes)
+# class in cassandra/cqltypes.py -> acceptable sets of struct formats / named codecs used by the writer
+VALUE_FORMATS = {
+    'BooleanType': [{'>b'}, {'>B'}],           # one byte, 0 / 1
+    'ByteType': [{'>b'}],                      # tinyint: 1-byte two's complement
+    'ShortType': [{'>h'}],                     # smallint: 2-byte two's complement
+    'Int32Type': [{'>i'}],
+    'LongType': [{'>q'}],
+    'FloatType': [{'>f'}],
+    'DoubleType': [{'>d'}],
+    'IntegerType': [{'varint'}],               # minimal two's complement
+    'DecimalType': [{'>i', 'varint'}],         # [int scale][varint unscaled]
+    'DateType': [{'>q'}],                      # timestamp: 8-byte signed milliseconds
+    'SimpleDateType': [{'>I'}],                # date: unsigned 32-bit, epoch at 2**31
+    'TimeType': [{'>q'}],                      # time: 8-byte signed nanoseconds
+    'DurationType': [{'vints'}],               # three zig-zag vints: months, days, nanoseconds
+    'UUIDType': [set()], 'TimeUUIDType': [set()], 'InetAddressType': [set()],
+    'BytesType': [set()], 'AsciiType': [set()], 'UTF8Type': [set()],
+}
+DATE_EPOCH_OFFSET = 2 ** 31
+
+
+def collection_layout(kind, v):
+    """(count format, element length format) of list/set/map at protocol version v; tuples/UDT fields always int32."""
+    if kind in ('list', 'set', 'map'):
+        return ('>i', '>i') if v >= 3 else ('>H', '>H')
+    if kind in ('tuple', 'udt'):
+        return (None, '>i')
+    raise KeyError(kind)
+
+
+def vint_extra_bytes(first_byte):
+    """number of extra bytes of a vint = number of leading 1 bits of its first byte (VIntCoding)."""
+    n = 0
+    while n < 8 and first_byte & (0x80 >> n):
+        n += 1
+    return n
